@@ -93,7 +93,8 @@ def portsFree (used new : List HostPort) : Bool := new.all (fun p => !used.any (
 def fits (cpu mem pods remCPU remMem remPods : Int) : Bool :=
   decide (cpu ≤ remCPU) && decide (mem ≤ remMem) && decide (pods ≤ remPods)
 
-def labelReqs (ls : Labels) : Reqs := Reqs.add [] (ls.map (fun (k, v) => newReq { key := k, op := .in_, vals := [v] }))
+/-- `NewLabelRequirements(labels)` for labels with distinct, already-normalised keys (node labels): one `In [v]` per label -/
+def labelReqs (ls : Labels) : Reqs := ls.map (fun (k, v) => (k, { key := k, complement := false, values := [v] }))
 
 /-- `ExistingNode.CanAdd` without topology / volumes: taints, host ports, resources, requirement compatibility
     against the node's (label) requirements with NO undefined keys allowed -/
@@ -106,6 +107,118 @@ def existingCanAdd (n : ExNode) (p : PodD) : Bool :=
 /-- `ExistingNode.Add`: the node's own requirements stay fixed (repaired: they used to absorb the pod's) -/
 def existingAdd (n : ExNode) (p : PodD) : ExNode :=
   { n with remCPU := n.remCPU - p.cpu, remMem := n.remMem - p.mem, remPods := n.remPods - 1, ports := n.ports ++ p.ports }
+
+/-! ### `trySchedule` against one existing node: try, relax, try again -/
+
+structure PodSpecM where
+  cpu : Int
+  mem : Int
+  tolerations : List Toleration
+  ports : List HostPort
+  sel : Labels
+  aff : PodAffinitySpec
+
+/-- `updateCachedPodData`: requirements from the node selector, the heaviest preferred term (unless preferences are
+    ignored) and the first required term -/
+def podDOf (ignorePrefs : Bool) (p : PodSpecM) : PodD :=
+  { cpu := p.cpu, mem := p.mem, tolerations := p.tolerations, ports := p.ports,
+    exprs := podExprs p.sel (p.aff.required.head?.getD []) (if ignorePrefs then [] else p.aff.preferred.head?.getD []) }
+
+def pnsToleration : Toleration := { key := "", operator := "Exists", value := "", effect := "PreferNoSchedule" }
+
+/-- `Toleration.MatchToleration` against the PreferNoSchedule toleration -/
+def hasPNS (ts : List Toleration) : Bool :=
+  ts.any (fun t => t.key == "" && t.operator == "Exists" && t.value == "" && t.effect == "PreferNoSchedule")
+
+/-- the `trySchedule` loop restricted to one existing node: `fuel` bounds the (finite) number of relaxations -/
+def tryExisting : Nat → ExNode → PodSpecM → Bool → Bool → Bool
+  | 0, _, _, _, _ => false
+  | f + 1, n, p, ignorePrefs, tolPNS =>
+    if existingCanAdd n (podDOf ignorePrefs p) then true else
+    match relaxStep p.aff with
+    | some a' => tryExisting f n { p with aff := a' } ignorePrefs tolPNS
+    | none =>
+      if tolPNS && !hasPNS p.tolerations then
+        tryExisting f n { p with tolerations := p.tolerations ++ [pnsToleration] } ignorePrefs tolPNS
+      else false
+
+/-! ### The scheduler's view of a node (`state.StateNode` accessors at each lifecycle stage) -/
+
+def ephemeralTaint (t : Taint) : Bool :=
+  (t.key == "node.kubernetes.io/not-ready" && (t.effect == "NoSchedule" || t.effect == "NoExecute")) ||
+  (t.key == "node.kubernetes.io/unreachable" && t.effect == "NoSchedule") ||
+  (t.key == "node.cloudprovider.kubernetes.io/uninitialized" && t.effect == "NoSchedule" && t.value == "true") ||
+  (t.key == "karpenter.sh/unregistered" && t.effect == "NoExecute") ||
+  t.key.startsWith "readiness.k8s.io/"
+
+/-- `Taint.MatchTaint`: same key and effect -/
+def matchTaint (a b : Taint) : Bool := a.key == b.key && a.effect == b.effect
+
+/-- labels as `StateNode.Labels()` reports them, plus the hostname requirement `NewExistingNode` adds -/
+def viewLabels (s : Scenario) (n : Node) : Labels :=
+  let poolLabels : Labels := match s.pool? n.pool with
+    | some p => (Karp.Gen.Labels.nodePoolLabelKey, p.name) :: p.labels
+    | none => []
+  let stageLabels : Labels :=
+    if !n.managed then [] else
+    if n.stage == "registered" then [("karpenter.sh/registered", "true")]
+    else if n.stage == "initialized" then [("karpenter.sh/registered", "true"), ("karpenter.sh/initialized", "true")]
+    else []
+  n.labels ++ poolLabels ++ stageLabels ++
+  [("node.kubernetes.io/instance-type", n.it), ("topology.kubernetes.io/zone", n.zone),
+   (Karp.Gen.Labels.capacityTypeLabelKey, n.ct), ("kubernetes.io/arch", "amd64"), ("kubernetes.io/os", "linux"),
+   ("kubernetes.io/hostname", n.name)]
+
+/-- `StateNode.Taints()` -/
+def viewTaints (s : Scenario) (n : Node) : List Taint :=
+  let pool := s.pool? n.pool
+  let poolTaints := match pool with | some p => p.taints | none => []
+  let startup := match pool with | some p => p.startupTaints | none => []
+  let unregistered := n.managed && (n.stage == "claim" || n.stage == "node")
+  if unregistered then
+    -- the NodeClaim's taints
+    poolTaints.filter (fun t => !(ephemeralTaint t || startup.any (fun st => matchTaint st t)))
+  else
+    let nodeTaints := n.taints ++ poolTaints ++ (if n.managed && n.stage == "registered" then startup else [])
+    if n.managed && n.stage != "initialized" then
+      nodeTaints.filter (fun t => !(ephemeralTaint t || startup.any (fun st => matchTaint st t)))
+    else nodeTaints
+
+/-- is daemonset `d` counted for the node (`isDaemonPodCompatibleWithNode`; daemon pods carry the PreferNoSchedule
+    toleration that `isDaemonPodCompatible` adds to them while the overhead groups are built) -/
+def dsCounted (d : DaemonSet) (ls : Labels) (taints : List Taint) : Bool :=
+  toleratesAll (d.tolerations ++ [pnsToleration]) taints &&
+  (labelReqs ls).compatible (podReqs (selectorExprs d.nodeSelector)) []
+
+/-- `NewExistingNode`: what is left on the node for this pass -/
+def viewNode (s : Scenario) (n : Node) : Option ExNode :=
+  match s.it? n.it with
+  | none => none
+  | some it =>
+    let ls := viewLabels s n
+    let taints := viewTaints s n
+    let bound := n.pods
+    let bCPU := bound.foldl (fun a p => a + p.cpu) 0
+    let bMem := bound.foldl (fun a p => a + p.mem) 0
+    let daemons := s.daemonsets.filter (fun d => dsCounted d ls taints)
+    let bd := bound.filter (·.daemon)
+    let rdCPU := max 0 (daemons.foldl (fun a d => a + d.cpu) 0 - bd.foldl (fun a p => a + p.cpu) 0)
+    let rdMem := max 0 (daemons.foldl (fun a d => a + d.mem) 0 - bd.foldl (fun a p => a + p.mem) 0)
+    let rdPods : Int := max 0 ((daemons.length : Int) - (bd.length : Int))
+    some { labels := ls, taints := taints,
+           remCPU := it.allocCPU - bCPU - rdCPU, remMem := it.mem - bMem - rdMem,
+           remPods := it.pods - (bound.length : Int) - rdPods,
+           ports := bound.flatMap (·.hostPorts) }
+
+/-- the scheduler-level pod description of a scenario pod (preferred terms heaviest first, stable) -/
+def podSpecOf (p : Pod) : PodSpecM :=
+  let prefs := (p.preferred.toArray.insertionSort (fun a b => a.weight > b.weight)).toList
+  { cpu := p.cpu, mem := p.mem, tolerations := p.tolerations, ports := p.hostPorts, sel := p.nodeSelector,
+    aff := { required := p.required, preferred := prefs.map (·.exprs) } }
+
+end Karp.Sched
+namespace Karp.Sched
+open Karp.Req Karp.Scn
 
 /-! ### New NodeClaims: `fits` / `compatible` / `filterInstanceTypesByRequirements` -/
 
